@@ -50,3 +50,17 @@ def run(tier, seed):
                        "Takeuchi start vectors at r0/R >= 0.1 are a known finding of C04 and excluded",
                        "converged solves only"]
     return ck.finish()
+
+
+def replay(path):
+    """re-solve the representation recorded in a replay file and print what the solver returns next to the closed form"""
+    import json
+    from .. import solver_obs as so
+    d = json.load(open(path))
+    print(d["desc"][:3000])
+    rep = (d.get("replay") or {}).get("rep")
+    if rep:
+        rep = dict(rep)
+        out = so.run_reps([rep], nproc=1)[0]
+        print(json.dumps({k: out.get(k) for k in ("status", "love", "tight_shift", "msg")}, indent=1)[:3000])
+    return 1
